@@ -34,7 +34,10 @@
 #define INLEN 700
 #define BIGN 10300 /* one shared input above 10000 elements: the sampled-uniqueness path of the adaptive analysis */
 
+#define HUGEN 70001 /* shared inputs of more than 65536 elements (input slot 1 of every codec that takes them) */
 static uint64_t *BIG;
+static uint64_t *HUGE_IN[3];
+static __thread uint64_t *PRIV; /* per-thread domain-shaping copy */
 static uint64_t *IN[NIN][3];  /* [input][domain flavour]: 0 any, 1 sorted, 2 >=1 ; read-only after setup */
 static size_t INN[NIN];
 static double *DIN[NIN];
@@ -47,12 +50,19 @@ static _Atomic int CUR[MAXT];
 static _Atomic uint64_t OVERLAP[NOPS][NOPS];
 static _Atomic uint64_t CALLS, CALLS_OVERLAPPED, MISMATCHES;
 static int NT = 4, ROUNDS = 10;
+static bool COLD = false;
+static int COLD_ROT = 0;
+static uint64_t COLD_GOT[MAXT][NOPS][NIN];
 static pthread_barrier_t BAR;
 
 static const uint64_t *input_for(const codec_t *c, int in, size_t *n) {
     if (in == 0 && !strcmp(c->name, "adaptive.auto")) {
         *n = BIGN;
         return BIG;
+    }
+    if (in == 1 && c->domain != DOM_GROUP && c->domain != DOM_STRICT16 && !(c->maxlen && c->maxlen < HUGEN)) {
+        *n = HUGEN - 1 - (size_t)(c - CODECS) % 3;
+        return c->domain == DOM_SORTED ? HUGE_IN[1] : c->domain == DOM_GE1 ? HUGE_IN[2] : HUGE_IN[0];
     }
     size_t len = INN[in];
     if (c->maxlen && len > c->maxlen) len = c->maxlen;
@@ -71,7 +81,7 @@ static uint64_t run_op(int op, int in, uint8_t *scratch, uint64_t *outbuf) {
         const codec_t *c = &CODECS[op];
         size_t n;
         const uint64_t *a = input_for(c, in, &n);
-        uint64_t tmp32[INLEN];
+        uint64_t *tmp32 = PRIV;
         if (c->elembits == 32 || c->domain == DOM_SIGNED_DELTA || c->domain == DOM_STRICT16) {
             /* private, domain-shaped copy (the shaping itself is harness code) */
             for (size_t i = 0; i < n; i++) tmp32[i] = c->elembits == 32 ? (a[i] & 0xffffffffu) : c->domain == DOM_STRICT16 ? (uint64_t)(i * 3 + (a[0] & 1)) : (a[i] >> 2);
@@ -216,9 +226,32 @@ static void *worker(void *p) {
     targ_t *t = p;
     rng_t r;
     rng_seed(&r, t->seed);
-    uint8_t *scratch = malloc(scratch_size(BIGN) + 8192);
-    uint64_t *outbuf = malloc((BIGN + 8) * 8);
+    uint8_t *scratch = malloc(scratch_size(HUGEN) + 8192);
+    uint64_t *outbuf = malloc((HUGEN + 8) * 8);
+    PRIV = malloc(HUGEN * 8);
     int order[NOPS];
+    if (COLD) {
+        /* cold start: no library function has run in this process yet (no sequential reference beforehand); every
+         * op's first calls are made by all threads together, released by a barrier; results are judged afterwards */
+        for (int k = 0; k < (int)NOPS; k++) {
+            int op = (k + COLD_ROT) % (int)NOPS;
+            for (int in = 0; in < NIN; in++) {
+                if (in == 0) pthread_barrier_wait(&BAR);
+                atomic_store(&CUR[t->tid], op + 1);
+                for (int o = 0; o < NT; o++) {
+                    int other = o == t->tid ? 0 : atomic_load(&CUR[o]);
+                    if (other) atomic_fetch_add(&OVERLAP[op][other - 1], 1);
+                }
+                COLD_GOT[t->tid][op][in] = run_op(op, in, scratch, outbuf);
+                atomic_store(&CUR[t->tid], 0);
+                atomic_fetch_add(&CALLS, 1);
+            }
+        }
+        free(scratch);
+        free(outbuf);
+        free(PRIV);
+        return NULL;
+    }
     for (int round = 0; round < ROUNDS; round++) {
         for (int i = 0; i < (int)NOPS; i++) order[i] = i;
         if (round & 1) { /* fully permuted round */
@@ -264,6 +297,7 @@ static void *worker(void *p) {
     }
     free(scratch);
     free(outbuf);
+    free(PRIV);
     return NULL;
 }
 
@@ -292,20 +326,30 @@ int main(int argc, char **argv) {
         SHARED_DICT[i] = varintDictCreate();
         varintDictBuild(SHARED_DICT[i], IN[i][0], INN[i]);
     }
+    for (int f = 0; f < 3; f++) HUGE_IN[f] = malloc(HUGEN * 8);
+    gen_array_model(&r, AM_CLUSTER_OUT, HUGE_IN[0], HUGEN, 64);
+    for (size_t k = 0; k < HUGEN; k++) if (k % 7 == 3) HUGE_IN[0][k] = HUGE_IN[0][k / 2]; /* repeated values: dictionaries stay smaller than the input */
+    memcpy(HUGE_IN[1], HUGE_IN[0], HUGEN * 8);
+    qsort(HUGE_IN[1], HUGEN, 8, cmp_u64);
+    for (size_t k = 0; k < HUGEN; k++) HUGE_IN[2][k] = HUGE_IN[0][k] ? HUGE_IN[0][k] : 1;
     BIG = malloc(BIGN * 8);
     for (size_t k = 0; k < BIGN; k++) BIG[k] = (rng_next(&r) % 5000) * 977 + 5; /* many distinct values: the sampled estimate depends on which elements are sampled */
     for (int op = 0; op < (int)NOPS; op++) {
         static const char *const en[NEXTRA_OPS] = {"scalar.tagged+external", "scalar.chained", "scalar.split-macros", "scalar.inplace-add", "float", "dict.shared-const", "packed.private", "bitstream.private", "adaptive.analysis-over-10000"};
         OPNAME[op] = op < (int)NCODECS ? CODECS[op].name : en[op - (int)NCODECS];
     }
-    /* sequential reference results, before any thread exists */
-    {
-        uint8_t *scratch = malloc(scratch_size(BIGN) + 8192);
-        uint64_t *outbuf = malloc((BIGN + 8) * 8);
+    COLD = !strcmp(g_mode, "c17cold");
+    COLD_ROT = (int)((g_shard * 7 + g_seed) % NOPS);
+    /* sequential reference results, before any thread exists (cold mode: afterwards) */
+    if (!COLD) {
+        uint8_t *scratch = malloc(scratch_size(HUGEN) + 8192);
+        uint64_t *outbuf = malloc((HUGEN + 8) * 8);
+        PRIV = malloc(HUGEN * 8);
         for (int op = 0; op < (int)NOPS; op++)
             for (int in = 0; in < NIN; in++) REF[op][in] = run_op(op, in, scratch, outbuf);
         free(scratch);
         free(outbuf);
+        free(PRIV);
     }
     pthread_barrier_init(&BAR, NULL, (unsigned)NT);
     pthread_t th[MAXT];
@@ -316,6 +360,22 @@ int main(int argc, char **argv) {
         pthread_create(&th[t], NULL, worker, &ta[t]);
     }
     for (int t = 0; t < NT; t++) pthread_join(th[t], NULL);
+    if (COLD) {
+        uint8_t *scratch = malloc(scratch_size(HUGEN) + 8192);
+        uint64_t *outbuf = malloc((HUGEN + 8) * 8);
+        PRIV = malloc(HUGEN * 8);
+        for (int op = 0; op < (int)NOPS; op++) {
+            for (int in = 0; in < NIN; in++) {
+                REF[op][in] = run_op(op, in, scratch, outbuf);
+                for (int t = 0; t < NT; t++) {
+                    if (COLD_GOT[t][op][in] != REF[op][in]) {
+                        if (MISMATCHES++ < 20) fprintf(stderr, "MISMATCH (cold start) op=%s input=%d thread=%d\n", OPNAME[op], in, t);
+                    }
+                }
+            }
+        }
+        printf("STAT c17_cold_start_ops %d\n", (int)NOPS);
+    }
     /* report after join (no stdio inside the measured region) */
     uint64_t pairs = 0, selfpairs = 0;
     for (int a = 0; a < (int)NOPS; a++) {
